@@ -147,7 +147,7 @@ func HCL(m *Model) string {
 			}
 			plain := true
 			for _, p := range i.Parts {
-				if p.Col == "" || p.Desc || p.Prefix != 0 || p.NullsFirst != nil {
+				if p.Col == "" || p.Desc || p.Prefix != 0 || p.NullsFirst != nil || p.Ops != "" {
 					plain = false
 				}
 			}
@@ -170,6 +170,9 @@ func HCL(m *Model) string {
 					}
 					if p.Prefix != 0 {
 						w("      prefix = %d\n", p.Prefix)
+					}
+					if p.Ops != "" {
+						w("      ops = %s\n", p.Ops)
 					}
 					if p.NullsFirst != nil {
 						if *p.NullsFirst {
